@@ -545,4 +545,261 @@ theorem extractQ_spec' (f : Fmt) (t : List Char) : extractQ (mkG t [] f) = specQ
         · rename_i heq; simp_all
         · rfl
 
+theorem get_not_good (i : IStream) (c : Char) (h : i.good = false) : i.get c = ({ i with fail := true }, c) := by
+  simp [IStream.get, h]
+
+theorem extractZ_not_good' (i : IStream) (h : i.good = false) : extractZ i = ({ i with fail := true }, Val.unchanged) := by
+  have hg : ({ i with fail := true } : IStream).good = false := by simp [IStream.good]
+  have hfailed : ({ i with fail := true } : IStream).failed = true := by simp [IStream.failed]
+  have hsp : isspace '\x00' = false := by decide
+  have hdt : ∀ b, digitTest b '\x00' = false := fun b => digitTest_of_not_xdigit b _ (by decide)
+  have hstart : start i = ({ i with fail := true }, '\x00') := by
+    unfold start
+    rw [get_not_good i _ h]
+    simp only
+    split
+    · cases hn : ({ i with fail := true } : IStream).rest.length + 1 with
+      | zero => simp [skipWs]
+      | succ n => simp [skipWs, hsp]
+    · rfl
+  unfold extractZ
+  rw [hstart]
+  simp only
+  rw [extractZNowhite_eq]
+  have hrs : readSign { i with fail := true } '\x00' = ([], { i with fail := true }, '\x00') := by
+    simp [readSign, show ¬ (('\x00' : Char) = '-' ∨ ('\x00' : Char) = '+') by decide]
+  rw [hrs]
+  simp only
+  unfold bodyRun
+  have hsb : ∃ b z sb, setBase { i with fail := true } '\x00' = ({ i with fail := true }, '\x00', z, sb, b) ∧ z = false := by
+    unfold setBase
+    simp only [show ¬ (('\x00' : Char) = '0') by decide, if_false]
+    split_ifs <;> exact ⟨_, _, _, rfl, rfl⟩
+  obtain ⟨b, z, sb, e, rfl⟩ := hsb
+  rw [e]
+  simp only
+  unfold digitsRun setDigits
+  have hl : ∀ n, digitsLoop (digitTest b) n [] { i with fail := true } '\x00' false = ([], { i with fail := true }, '\x00', false) := by
+    intro n; cases n <;> simp [digitsLoop, hdt]
+  rw [hl]
+  simp [finish, hg, IStream.setFail]
+/-! ### `operator<<` -/
+
+section
+open List
+
+theorem int_bytes (P : Params) (neg : Bool) (ds : List Char) (hds : ∀ c ∈ ds, c ≠ '/' ∧ c ≠ '-') (hp : P.prec = -1) :
+    callsBytes (doprntInteger P ((if neg then ['-'] else []) ++ ds)) =
+      closedCore P (if neg then some '-' else P.sign).toList ds (showbaseStr P) := by
+  have hhead : ds.head? ≠ some '-' := by
+    cases ds with
+    | nil => simp
+    | cons a t => simp; exact (hds a mem_cons_self).2
+  unfold doprntInteger
+  rw [doprntIntegerG_signed P neg ds hhead]
+  have e : (if ds.head? = some '0' ∧ P.prec = 0 then ds.tail else ds) = ds := by
+    rw [hp]; simp
+  rw [e, core_bytes P _ ds _ (splitSlash_none ds (fun c hc => (hds c hc).1))]
+
+/-- `closedCore` without precision zeros -/
+theorem closedCore_noprec (P : Params) (sign s sb : List Char) (hp : P.prec = -1) (hj : P.justify ≠ .none) :
+    closedCore P sign s sb =
+      (let sb1 := if P.showbase = .nonzero ∧ s.head? = some '0' then [] else sb
+       let pad := replicate (P.width - ((sign.length + sb1.length + s.length : Nat) : Int)).toNat P.fill
+       match P.justify with
+       | .left => sign ++ sb1 ++ s ++ pad
+       | .internal => sign ++ sb1 ++ pad ++ s
+       | _ => pad ++ sign ++ sb1 ++ s) := by
+  unfold closedCore
+  have hz : (P.prec - (s.length : Int)).toNat = 0 := by rw [hp]; omega
+  simp only [hz, Nat.lt_irrefl, false_and, if_false, replicate_zero, append_nil, Nat.add_zero]
+  generalize (if P.showbase = .nonzero ∧ s.head? = some '0' then [] else sb) = sb1
+  have e : (s.length + sign.length + sb1.length : Nat) = sign.length + sb1.length + s.length := by omega
+  rw [e]
+  generalize (P.width - ((sign.length + sb1.length + s.length : Nat) : Int)).toNat = pad
+  by_cases h0 : pad = 0
+  · subst h0; cases hjj : P.justify <;> simp_all
+  · cases hjj : P.justify <;> simp_all
+
+/-- the parameters `operator<<` for integers works with -/
+def intParams (o : OStream) : Params := { (paramsFromIos o).1 with prec := -1 }
+
+theorem intParams_base (o : OStream) :
+    (intParams o).base.natAbs = o.fmt.outBase ∧ decide ((intParams o).base < 0) = o.fmt.outUpper ∧
+    (paramsFromIos o).1.base = (intParams o).base := by
+  rcases o with ⟨out, e, fl, b, f, w, fi, pr⟩
+  rcases f with ⟨dec, oct, hex, sb, sp, up, l, r, it, fx, sc, spt, sk⟩
+  cases dec <;> cases oct <;> cases hex <;> cases up <;> simp [intParams, paramsFromIos, Fmt.outBase, Fmt.outUpper, Fmt.hexOnly, Fmt.octOnly]
+
+theorem intParams_prefix (o : OStream) (s : List Char) (isZero : Bool) (hz : s.head? = some '0' ↔ isZero = true) :
+    (if (intParams o).showbase = .nonzero ∧ s.head? = some '0' then [] else showbaseStr (intParams o)) = prefixStr o.fmt isZero := by
+  rcases o with ⟨out, e, fl, b, f, w, fi, pr⟩
+  rcases f with ⟨dec, oct, hex, sb, sp, up, l, r, it, fx, sc, spt, sk⟩
+  cases isZero <;> simp at hz <;>
+  cases dec <;> cases oct <;> cases hex <;> cases up <;> cases sb <;>
+    simp [intParams, paramsFromIos, prefixStr, showbaseStr, Fmt.hexOnly, Fmt.octOnly, hz]
+
+theorem intParams_sign (o : OStream) (neg : Bool) :
+    (if neg then some '-' else (intParams o).sign).toList = signStr o.fmt neg := by
+  rcases o with ⟨out, e, fl, b, f, w, fi, pr⟩
+  rcases f with ⟨dec, oct, hex, sb, sp, up, l, r, it, fx, sc, spt, sk⟩
+  cases neg <;> cases sp <;> simp [intParams, paramsFromIos, signStr]
+
+theorem intParams_layout (o : OStream) (sign pre body : List Char) :
+    (let pad := replicate ((intParams o).width - ((sign.length + pre.length + body.length : Nat) : Int)).toNat (intParams o).fill
+     match (intParams o).justify with
+     | .left => sign ++ pre ++ body ++ pad
+     | .internal => sign ++ pre ++ pad ++ body
+     | _ => pad ++ sign ++ pre ++ body) = fieldLayout o.fmt o.width o.fill sign pre body := by
+  rcases o with ⟨out, e, fl, b, f, w, fi, pr⟩
+  rcases f with ⟨dec, oct, hex, sb, sp, up, l, r, it, fx, sc, spt, sk⟩
+  cases l <;> cases r <;> cases it <;> simp [intParams, paramsFromIos, fieldLayout]
+
+theorem intParams_justify (o : OStream) : (intParams o).justify ≠ .none := by
+  rcases o with ⟨out, e, fl, b, f, w, fi, pr⟩
+  rcases f with ⟨dec, oct, hex, sb, sp, up, l, r, it, fx, sc, spt, sk⟩
+  cases l <;> cases r <;> cases it <;> simp [intParams, paramsFromIos]
+
+theorem outBase_range (f : Fmt) : 2 ≤ f.outBase ∧ f.outBase ≤ 36 := by
+  unfold Fmt.outBase; split_ifs <;> omega
+
+theorem natDigits_head_zero_iff (b : Nat) (u : Bool) (hb : 2 ≤ b) (hb' : b ≤ 36) (n : Nat) :
+    (natDigits b u n).head? = some '0' ↔ n = 0 := by
+  constructor
+  · intro h; by_contra hn; exact natDigits_head_ne_zero b u hb hb' n hn h
+  · rintro rfl; rw [natDigits_zero]; rfl
+
+theorem insertZ_eq (o : OStream) (z : Int) :
+    insertZ o z = ({ o with width := 0 } : OStream).write (cstr (fieldLayout o.fmt o.width o.fill (signStr o.fmt (decide (z < 0)))
+        (prefixStr o.fmt (decide (z = 0))) (natDigits o.fmt.outBase o.fmt.outUpper z.natAbs))) := by
+  have hb := intParams_base o
+  have hr := outBase_range o.fmt
+  have hmem : ∀ c ∈ natDigits o.fmt.outBase o.fmt.outUpper z.natAbs, c ≠ '/' ∧ c ≠ '-' := fun c hc =>
+    digitTab_ne _ c (natDigits_mem _ _ hr.1 hr.2 _ c hc)
+  have hz : (natDigits o.fmt.outBase o.fmt.outUpper z.natAbs).head? = some '0' ↔ decide (z = 0) = true := by
+    rw [natDigits_head_zero_iff _ _ hr.1 hr.2]; simp
+  have e1 : insertZ o z = ({ o with width := 0 } : OStream).write (cstr (callsBytes (doprntInteger (intParams o) (mpzGetStr (intParams o).base z)))) := by
+    simp only [insertZ, doprntIntegerOstream, intParams, ← hb.2.2]
+    rfl
+  rw [e1]
+  have e2 : mpzGetStr (intParams o).base z = (if decide (z < 0) then ['-'] else []) ++ natDigits o.fmt.outBase o.fmt.outUpper z.natAbs := by
+    unfold mpzGetStr; rw [hb.1, hb.2.1]; simp
+  rw [e2, int_bytes (intParams o) _ _ hmem rfl, closedCore_noprec _ _ _ _ rfl (intParams_justify o)]
+  simp only [intParams_prefix o _ _ hz, intParams_sign]
+  rw [intParams_layout]
+def justLayout (j : Justify) (pad sign pre body : List Char) : List Char :=
+  match j with
+  | .left => sign ++ pre ++ body ++ pad
+  | .internal => sign ++ pre ++ pad ++ body
+  | _ => pad ++ sign ++ pre ++ body
+
+theorem intParams_layout2 (o : OStream) (sign pre body : List Char) :
+    justLayout (intParams o).justify
+      (replicate ((intParams o).width - ((sign.length + pre.length + body.length : Nat) : Int)).toNat (intParams o).fill)
+      sign pre body = fieldLayout o.fmt o.width o.fill sign pre body := by
+  rcases o with ⟨out, e, fl, b, f, w, fi, pr⟩
+  rcases f with ⟨dec, oct, hex, sb, sp, up, l, r, it, fx, sc, spt, sk⟩
+  cases l <;> cases r <;> cases it <;> simp [intParams, paramsFromIos, fieldLayout, justLayout]
+
+theorem core_bytes_slash (P : Params) (sign : Option Char) (s sb num den : List Char)
+    (hs : splitSlash s = some (num, den)) (hsn : s = num ++ den) (hp : P.prec = -1) (hj : P.justify ≠ .none) :
+    callsBytes (doprntIntegerCore false P sign s sb) =
+      (let sb1 := if P.showbase = .nonzero ∧ s.head? = some '0' then [] else sb
+       let dsb := if P.showbase = .nonzero ∧ den.head? = some '0' then [] else sb
+       justLayout P.justify
+         (replicate (P.width - ((sign.toList.length + sb1.length + (num ++ dsb ++ den).length : Nat) : Int)).toNat P.fill)
+         sign.toList sb1 (num ++ dsb ++ den)) := by
+  unfold doprntIntegerCore justLayout
+  simp only [hs]
+  generalize hsb1 : (if P.showbase = .nonzero ∧ s.head? = some '0' then [] else sb) = sb1
+  generalize hdsb : (if P.showbase = .nonzero ∧ den.head? = some '0' then [] else sb) = dsb
+  have e1 : (if P.showbase = .nonzero ∧ s.head? = some '0' then (0 : Int) else (sb.length : Int)) = (sb1.length : Int) := by
+    rw [← hsb1]; split <;> simp
+  have e2 : (if P.showbase = .nonzero ∧ den.head? = some '0' then (0 : Int) else (sb.length : Int)) = (dsb.length : Int) := by
+    rw [← hdsb]; split <;> simp
+  rw [e1, e2]
+  have ez : max 0 (P.prec - (s.length : Int)) = 0 := by rw [hp]; omega
+  rw [ez]
+  have htake : take sb1.length sb = sb1 := by rw [← hsb1]; split <;> simp
+  have htake2 : take dsb.length sb = dsb := by rw [← hdsb]; split <;> simp
+  have hlen : (P.width - ((s.length : Int) + (if sign.isSome = true then 1 else 0) + (sb1.length : Int) + (dsb.length : Int) + 0)) =
+      P.width - ((sign.toList.length + sb1.length + (num ++ dsb ++ den).length : Nat) : Int) := by
+    rw [hsn]; cases sign <;> simp <;> omega
+  simp only [show ¬ ((0 : Int) > 0 ∧ (sb1.length : Int) = 1) by omega, if_false, not_false_eq_true, and_false, and_true, true_and, hlen]
+  generalize (P.width - ((sign.toList.length + sb1.length + (num ++ dsb ++ den).length : Nat) : Int)) = jl
+  clear hlen e1 e2 ez hsb1 hdsb
+  subst hsn
+  have hdl : (dsb.length : Int) = 0 ↔ dsb = [] := by
+    cases dsb with
+    | nil => simp
+    | cons a t => simp; omega
+  by_cases hjl : jl ≤ 0
+  · have ht : jl.toNat = 0 := by omega
+    simp only [if_pos hjl, ht]
+    cases sign <;> cases hjj : P.justify <;> by_cases hd0 : dsb = [] <;> simp_all [Call.bytes]
+  · simp only [if_neg hjl]
+    cases sign <;> cases hjj : P.justify <;> by_cases hd0 : dsb = [] <;> simp_all [Call.bytes]
+
+theorem splitSlash_append (a b : List Char) (h : ∀ c ∈ a, c ≠ '/') : splitSlash (a ++ '/' :: b) = some (a ++ ['/'], b) := by
+  induction a with
+  | nil => simp [splitSlash]
+  | cons x t ih =>
+    have hx : x ≠ '/' := h x mem_cons_self
+    have := ih (fun c hc => h c (mem_cons_of_mem _ hc))
+    simp [splitSlash, hx, this]
+
+theorem head?_append_ne_nil (a b : List Char) (h : a ≠ []) : (a ++ b).head? = a.head? := by
+  cases a with
+  | nil => exact absurd rfl h
+  | cons x t => rfl
+
+theorem insertQ_eq (o : OStream) (n d : Int) (hd : 0 < d) :
+    insertQ o n d = ({ o with width := 0 } : OStream).write (cstr (fieldLayout o.fmt o.width o.fill (signStr o.fmt (decide (n < 0)))
+        (prefixStr o.fmt (decide (n = 0)))
+        (natDigits o.fmt.outBase o.fmt.outUpper n.natAbs ++
+          (if d = 1 then [] else '/' :: (prefixStr o.fmt false ++ natDigits o.fmt.outBase o.fmt.outUpper d.natAbs))))) := by
+  by_cases h1 : d = 1
+  · subst h1
+    have : insertQ o n 1 = insertZ o n := by simp [insertQ, insertZ, mpqGetStr]
+    rw [this, insertZ_eq]; simp
+  have hb := intParams_base o
+  have hr := outBase_range o.fmt
+  generalize hnd : natDigits o.fmt.outBase o.fmt.outUpper n.natAbs = nd
+  generalize hdd : natDigits o.fmt.outBase o.fmt.outUpper d.natAbs = dd
+  have hmemn : ∀ c ∈ nd, c ≠ '/' ∧ c ≠ '-' := fun c hc =>
+    digitTab_ne _ c (natDigits_mem _ _ hr.1 hr.2 _ c (by rw [hnd]; exact hc))
+  have hmemd : ∀ c ∈ dd, c ≠ '/' ∧ c ≠ '-' := fun c hc =>
+    digitTab_ne _ c (natDigits_mem _ _ hr.1 hr.2 _ c (by rw [hdd]; exact hc))
+  have hnne : nd ≠ [] := by rw [← hnd]; exact natDigits_ne_nil _ _ _
+  have hzn : nd.head? = some '0' ↔ decide (n = 0) = true := by
+    rw [← hnd, natDigits_head_zero_iff _ _ hr.1 hr.2]; simp
+  have hzd : dd.head? = some '0' ↔ false = true := by
+    rw [← hdd, natDigits_head_zero_iff _ _ hr.1 hr.2]; simp; omega
+  have e1 : insertQ o n d = ({ o with width := 0 } : OStream).write (cstr (callsBytes (doprntInteger (intParams o) (mpqGetStr (intParams o).base n d)))) := by
+    simp only [insertQ, doprntIntegerOstream, intParams]
+    rfl
+  rw [e1]
+  have e2 : mpqGetStr (intParams o).base n d = (if decide (n < 0) then ['-'] else []) ++ (nd ++ '/' :: dd) := by
+    unfold mpqGetStr mpzGetStr; rw [hb.1, hb.2.1, hnd, hdd]
+    simp [h1, show ¬ d < 0 by omega]
+  rw [e2]
+  have hhead : (nd ++ '/' :: dd).head? ≠ some '-' := by
+    rw [head?_append_ne_nil _ _ hnne]
+    cases nd with
+    | nil => exact absurd rfl hnne
+    | cons a t => simp; exact (hmemn a mem_cons_self).2
+  unfold doprntInteger
+  rw [doprntIntegerG_signed (intParams o) _ _ hhead]
+  have e3 : (if (nd ++ '/' :: dd).head? = some '0' ∧ (intParams o).prec = 0 then (nd ++ '/' :: dd).tail else nd ++ '/' :: dd) = nd ++ '/' :: dd := by
+    simp [intParams]
+  rw [e3, core_bytes_slash (intParams o) _ (nd ++ '/' :: dd) _ (nd ++ ['/']) dd
+    (splitSlash_append nd dd (fun c hc => (hmemn c hc).1)) (by simp) rfl (intParams_justify o)]
+  have hzs : (nd ++ '/' :: dd).head? = some '0' ↔ decide (n = 0) = true := by
+    rw [head?_append_ne_nil _ _ hnne]; exact hzn
+  simp only [intParams_prefix o _ _ hzs, intParams_prefix o _ _ hzd, intParams_sign]
+  rw [intParams_layout2]
+  simp [h1]
+
+end
+
 end Mpir.CxxIo
